@@ -169,6 +169,42 @@ def Outcome.exc {σ : Type} : Outcome σ → Exc
   | .missedClose => .missedClose
   | .invalidAttr => .invalidAttr
 
+/-! ### `utils.addStartTag` at character level -/
+
+/-- text up to and including the first `q` -/
+def takeThrough (q : Char) : Str → Option (Str × Str)
+  | [] => none
+  | c :: cs => if c = q then some ([c], cs) else
+      match takeThrough q cs with
+      | some (a, b) => some (c :: a, b)
+      | none => none
+
+/-- `DOCTYPE_MATCH.match(contents)`: `[\n]*[ \t]*<!doctype[^>]*>` (letters of either case) at the very start;
+    returns the matched prefix and what follows it -/
+def doctypePrefix (s : Str) : Option (Str × Str) :=
+  let nl := s.takeWhile (· = '\n')
+  let r1 := s.dropWhile (· = '\n')
+  let bl := r1.takeWhile (fun c => c = ' ' || c = '\t')
+  let r2 := r1.dropWhile (fun c => c = ' ' || c = '\t')
+  match r2 with
+  | '<' :: '!' :: r3 =>
+    if lower (r3.take 7) = "doctype".toList then
+      match takeThrough '>' (r3.drop 7) with
+      | some (a, b) => some (nl ++ bl ++ ('<' :: '!' :: r3.take 7) ++ a, b)
+      | none => none
+    else none
+  | _ => none
+
+/-- `addStartTag(contents, startTag)` -/
+def addStartTagStr (contents startTag : Str) : Str :=
+  match doctypePrefix contents with
+  | some (pre, rest) => pre ++ startTag ++ rest
+  | none => startTag ++ contents
+
+/-- the text of the second pass: `addStartTag(contents, '<xxxblank>') + '</xxxblank>'` -/
+def wrapStr (contents : Str) : Str :=
+  addStartTagStr contents ('<' :: wrapperName ++ ['>']) ++ ('<' :: '/' :: wrapperName ++ ['>'])
+
 /-- a pass that is not retried: its document or its exception -/
 def FeedResult.ofPass (second : Bool) : Outcome BState → FeedResult
   | .ok s => .doc s.doc second
